@@ -9,6 +9,14 @@ node that was added and not deleted.  The real stores keep nodes in dictionaries
 internal id, so two live nodes with the same `(space, id)` mean that the second silently
 replaced the first: `dictView` is what such a dictionary would contain.
 
+Atomicity.  One step of `step` is one micro-instruction, executed atomically.  The instructions `acq`, `rel`, `read`,
+`bumpReg`, `setCtr`, `delSpace`, `delAll`, `ctor`, `reinit` and the atoms `ld`, `st`, `ins`, `rmOne` are each one attribute
+load/store or one dictionary primitive of CPython, which the GIL makes atomic; `loc` / `rdg` have no effect on the modelled state.
+The composite instructions `bump` (load + store), `add` / `addFrom` with more than one node (one dictionary insertion per
+node) and `del` (one dictionary deletion per node) are NOT atomic in CPython: `Proofs/Lemmas/C20Fine.lean` gives their
+expansion into atoms (`FineM`) and proves that the discipline monitor accepts the expanded programs, so every theorem about
+accepted programs holds with thread switches between atoms as well (`C20.store_threads_safe_atomwise`).
+
 Each thread runs a list of micro-instructions (`Lock.Micro`), one per step; `step t` performs
 the next instruction of thread `t` (`none` when `t` is finished or blocked on the lock);
 `run` follows an arbitrary schedule, skipping entries whose thread is not enabled.
@@ -33,6 +41,8 @@ structure Shared where
 structure Thread where
   prog : List Micro
   reg : Nat
+  /-- second register: the value loaded by the first half of a counter increment -/
+  tmp : Nat := 0
   deriving Inhabited
 
 structure Sys where
@@ -67,7 +77,17 @@ def effect (m : Micro) (reg : Nat) (sh : Shared) : Shared × Nat :=
   | .ctor weak =>
     -- the singleton exists from the start; a weak creation guard takes an empty store for "no store yet"
     if weak && sh.nodes.isEmpty then (⟨fun _ => 1, [], sh.gen + 1⟩, reg) else (sh, reg)
+  | .reinit => (⟨fun _ => 1, [], sh.gen + 1⟩, reg)
+  | .ins c g off => ({ sh with nodes := addIds c g (reg + off) 1 sh.nodes }, reg)
+  | .rmOne g => ({ sh with nodes := sh.nodes.eraseP (fun n => n.owner == g) }, reg)
   | _ => (sh, reg)
+
+/-- `effect` extended to the two atoms that use the second register -/
+def effectT (m : Micro) (reg tmp : Nat) (sh : Shared) : Shared × Nat × Nat :=
+  match m with
+  | .ld c => (sh, reg, sh.ctr c)
+  | .st c k => ({ sh with ctr := upd sh.ctr c (tmp + k) }, reg, tmp)
+  | _ => ((effect m reg sh).1, (effect m reg sh).2, tmp)
 
 def step (t : Nat) (s : Sys) : Option Sys :=
   match (s.thr t).prog with
@@ -75,15 +95,16 @@ def step (t : Nat) (s : Sys) : Option Sys :=
   | m :: rest =>
     if m = .acq then
       match s.lock with
-      | none => some { s with lock := some t, thr := upd s.thr t ⟨rest, (s.thr t).reg⟩ }
+      | none => some { s with lock := some t, thr := upd s.thr t ⟨rest, (s.thr t).reg, (s.thr t).tmp⟩ }
       | some _ => none                                   -- blocked
     else if m = .rel then
       match s.lock with
-      | none => some { s with relErr := true, thr := upd s.thr t ⟨rest, (s.thr t).reg⟩ }
-      | some _ => some { s with lock := none, thr := upd s.thr t ⟨rest, (s.thr t).reg⟩ }
+      | none => some { s with relErr := true, thr := upd s.thr t ⟨rest, (s.thr t).reg, (s.thr t).tmp⟩ }
+      | some _ => some { s with lock := none, thr := upd s.thr t ⟨rest, (s.thr t).reg, (s.thr t).tmp⟩ }
     else
-      let r := effect m (s.thr t).reg s.sh
-      some { s with sh := r.1, thr := upd s.thr t ⟨rest, r.2⟩ }
+      let r := effectT m (s.thr t).reg (s.thr t).tmp s.sh
+      -- `reinit` installs a new lock object: it is free, whoever holds the old one
+      some { s with lock := if m = .reinit then none else s.lock, sh := r.1, thr := upd s.thr t ⟨rest, r.2.1, r.2.2⟩ }
 
 def run : List Nat → Sys → Sys
   | [], s => s
@@ -95,7 +116,7 @@ def run : List Nat → Sys → Sys
 def initShared : Shared := ⟨fun _ => 1, [], 0⟩
 
 def init (progs : List (List Micro)) : Sys :=
-  ⟨none, false, initShared, fun t => ⟨progs.getD t [], 0⟩⟩
+  ⟨none, false, initShared, fun t => ⟨progs.getD t [], 0, 0⟩⟩
 
 def finished (s : Sys) : Prop := ∀ t, (s.thr t).prog = []
 
@@ -123,12 +144,15 @@ def addsOf (g : Nat) : List Micro → Nat
   | [] => 0
   | .add _ g' k :: p => (if g' = g then k else 0) + addsOf g p
   | .addFrom _ g' _ k :: p => (if g' = g then k else 0) + addsOf g p
+  | .ins _ g' _ :: p => (if g' = g then 1 else 0) + addsOf g p
   | _ :: p => addsOf g p
 
 def isDelete : Micro → Bool
   | .del _ => true
   | .delSpace _ => true
   | .delAll => true
+  | .rmOne _ => true
+  | .reinit => true
   | _ => false
 
 end FimVerif.Sched
